@@ -29,9 +29,35 @@ class _ViaFormula:
         from formulae import design_matrices
         d = pd.DataFrame({"y": np.zeros(len(x)), "x": np.asarray(x, dtype=float)})
         if self.dm is None:
-            self.dm = design_matrices(f"y ~ 0 + {self.name}(x)", d)
+            # (objects of the calling scope that happen to be named like the transforms do not replace them)
+            shadow = {"center": lambda v: v - np.median(v), "scale": 2.5, "standardize": False, "bs": 32, "poly": np}
+            try:
+                self.dm = design_matrices(f"y ~ 0 + {self.name}(x)", d, extra_namespace=shadow)
+            except Exception:        # noqa: BLE001 - a term that cannot be built is not the transform: reported through its values
+                return np.full(len(x), np.nan)
             return np.asarray(self.dm.common.design_matrix, dtype=float)[:, 0]
+        if self.dm is None:
+            return np.full(len(x), np.nan)
         return np.asarray(self.dm.common.evaluate_new_data(d).design_matrix, dtype=float)[:, 0]
+
+
+def check_raw_integer_training():
+    """poly(x, d, raw=True) returns exactly the powers - of later data too, whatever dtype the training column had"""
+    import pandas as pd
+    from formulae import design_matrices
+    out = []
+    tr = pd.DataFrame({"y": np.zeros(6), "x": np.array([1, 2, 3, 5, 8, 13], dtype=np.int64)})
+    for later in (np.array([0.5, 1.25, 2.0]), np.array([4], dtype=np.int64), np.array([-1.5, 7.75])):
+        for deg in (2, 3):
+            tag = f"poly(x, {deg}, raw=True), integer training column, later data {later.tolist()}"
+            try:
+                dm = design_matrices(f"y ~ 0 + poly(x, {deg}, raw=True)", tr)
+                got = np.asarray(dm.common.evaluate_new_data(pd.DataFrame({"x": later})).design_matrix, dtype=float).reshape(len(later), -1)
+                want = np.column_stack([later.astype(float) ** k for k in range(1, deg + 1)])
+                out.append((tag, "ok" if got.shape == want.shape and np.allclose(got, want) else "later data are not mapped to exactly their powers"))
+            except Exception as ex:
+                out.append((tag, f"raised {type(ex).__name__}: {ex}"))
+    return out
 
 
 def check_center_scale(rng):
@@ -268,7 +294,7 @@ def run(report, findings):
     res = []
     for i in range(reps):
         rng = np.random.default_rng(common.seed() + i)
-        res += check_center_scale(rng) + check_bs(rng) + check_poly(rng) + check_through_design(rng)
+        res += check_center_scale(rng) + check_bs(rng) + check_poly(rng) + check_through_design(rng) + check_raw_integer_training()
     evals = ok = bad = 0
     fk = {f["id"] for f in findings if f.get("kind") == "finding"}
     for tag, sig in res:
